@@ -30,7 +30,7 @@ KINDS = {0: 'dyadic', 1: 'signed', 2: 'gaussian'}
 
 def pt(rng, dim, kind, far=0.1):
     if kind == 2:
-        return [40 * rng.choice([0, 0, 1, -1, 2, 5]) for _ in range(dim)]
+        return [40 * rng.choice([0, 0, 0, 1, -1, 5]) for _ in range(dim)]
     if rng.random() < far:
         return [rng.choice([-60, 50, 90, rng.randrange(-100, 100)]) for _ in range(dim)]
     return [rng.randrange(-3, 4) for _ in range(dim)]
@@ -40,13 +40,27 @@ def gen_random(rng, ci, tier):
     kind = rng.choice([0, 0, 1, 2])
     k = rng.choice([2, 2, 3, 4, 5, 8, 16]) if ci % 25 else 64
     dim = rng.choice([1, 2, 3]) if ci % 9 else 0
-    far = rng.choice([0.0, 0.1, 0.5, 1.0])
+    far = rng.choice([0.0, 0.0, 0.1, 0.3, 1.0])
     nreg = rng.choice([1, 2, 3])
     ops.append([99, rng.randrange(1 << 30)])
+    dims = {}
     for r in range(nreg):
         kk = k if rng.random() < 0.8 else rng.choice([2, 3, k + 1, 1, 0])
         dd = dim if rng.random() < 0.85 else rng.choice([0, 1, 2])
         ops.append([1, r, kk, dd, kind])
+        if kk >= 2:
+            dims[r] = dd
+    def query(r):
+        # query point of the register's own dimension; rarely a wrong one (a SHORTER query is an out-of-bounds read in
+        # gaussian_kernel, so it is only generated for the harness kernels here and once in the directed cases)
+        d = dims.get(r, dim)
+        q = pt(rng, d, kind, far)
+        x = rng.random() if ci % 4 == 0 else 1.0
+        if x < 0.03:
+            q = q + [40 if kind == 2 else 1]
+        elif x < 0.06 and kind != 2 and q:
+            q = q[:-1]
+        return q
     nupd = rng.choice([3, 10, 30, 80]) if tier == 'quick' else rng.choice([3, 10, 30, 80, 250])
     nu = nq = nm = 0
     for _ in range(nupd):
@@ -59,22 +73,23 @@ def gen_random(rng, ci, tier):
         elif x < 0.72:
             ops.append([3, r, rng.choice([x for x in range(nreg + 1) if x != r])]); nm += 1
         elif x < 0.82:
-            ops.append([5, r] + pt(rng, dim, kind, far)); nq += 1
+            ops.append([5, r] + query(r)); nq += 1
         elif x < 0.92:
             ops.append([4, r])
         elif x < 0.96:
             ops.append([6, r])
-        elif dim > 0:
-            ops.append([7, r, rng.randrange(nreg)])
+        elif dims.get(r, 0) > 0:
+            r2 = rng.randrange(nreg)
+            ops.append([7, r, r2])
+            if r in dims: dims[r2] = dims[r]
     for r in range(nreg):
         ops.append([4, r]); ops.append([6, r])
         for _ in range(2):
-            ops.append([5, r] + pt(rng, dim, kind, far)); nq += 1
+            ops.append([5, r] + query(r)); nq += 1
     # pairwise merges at the end (merge adds n), then getters again
     for r in range(1, nreg):
-        if r != 0:
-            ops.append([3, 0, r]); nm += 1
-    ops.append([4, 0]); ops.append([6, 0]); ops.append([5, 0] + pt(rng, dim, kind, far))
+        ops.append([3, 0, r]); nm += 1
+    ops.append([4, 0]); ops.append([6, 0]); ops.append([5, 0] + query(0))
     if nm: tags.add('merge')
     if nu >= 2 * k: tags.add('compaction')
     if nu >= 8 and nq: tags.add('updates>=8')
@@ -141,23 +156,25 @@ def gen_directed(rng, ci):
         ops += [[3, 1, 0], [4, 1], [6, 1], [3, 0, 1], [4, 0], [6, 0], [5, 0] + pt(rng, dim, kind, 0.0), [7, 0, 2], [4, 2], [6, 2]]
         tags = ['deep', 'merge', 'compaction', KINDS[kind]]
     else:              # wrong dimensions everywhere
-        kind = rng.choice([0, 1, 2])
+        kind = 2 if ci == 3 else rng.choice([0, 1, 2])
         ops += [[1, 0, k, 2, kind], [1, 1, k, 3, kind], [2, 0, 0, 0], [2, 0, 0], [2, 0, 0, 0, 0], [2, 0], [2, 1, 0, 0], [2, 1, 0, 0, 0],
                 [3, 0, 1], [3, 1, 0], [4, 0], [4, 1], [1, 2, k, 7, kind], [3, 0, 2], [3, 2, 0], [4, 0], [4, 2],
                 [5, 0, 0, 0], [5, 0, 0, 0, 40], [5, 1, 0, 0, 0], [5, 1, 0, 0, 0, 0, 40]]
+        if kind != 2 or ci == 3:
+            ops.append([5, 1, 0])      # shorter query: with the Gaussian kernel an out-of-bounds read (sanitizer stop)
         tags = ['wrong-dim', 'merge']
     return dict(id='d%d' % ci, ops=ops, tags=tags)
 
 def gen(rng, tier):
     q = tier == 'quick'
     cases = []
-    for ci in range(110 if q else 1800):
+    for ci in range(500 if q else 6000):
         cases.append(gen_random(rng, ci, tier))
-    for ci in range(30 if q else 400):
+    for ci in range(120 if q else 1500):
         cases.append(gen_exact(rng, ci))
-    for ci in range(10 if q else 100):
+    for ci in range(30 if q else 300):
         cases.append(gen_near_gauss(rng, ci))
-    for ci in range(24 if q else 200):
+    for ci in range(48 if q else 400):
         cases.append(gen_directed(rng, ci))
     return cases
 
@@ -168,6 +185,8 @@ def oracle(case, irecs, mrecs):
     """Property predicates of C20 evaluated on the implementation's outputs; ground truth (S lines) from the Coq model's ghost state."""
     fails = []
     regs = {}   # register -> (k, dim, kind) as accepted by the implementation
+    deser = set()   # registers produced by deserialization and not updated since: the reader drops trailing empty levels, so the
+                    # bound retained <= k * levels (a statement about update/merge) is only re-established by the next update (C09 matter)
     def fail(sig, what, i):
         fails.append(dict(sig=sig, what=what, op_index=i))
     # Gaussian registers fed with off-lattice coordinates: estimates go through libm, values are not compared
@@ -178,15 +197,17 @@ def oracle(case, irecs, mrecs):
         R = irecs[i]['R']; F = irecs[i].get('F'); S = mrecs[i].get('S')
         c = op[0]
         if c == 1 and R == [1] and len(op) >= 5:
-            regs[op[1]] = (op[2], op[3], op[4])
+            regs[op[1]] = (op[2], op[3], op[4]); deser.discard(op[1])
         elif c == 7 and R == [1] and op[1] in regs:
-            regs[op[2]] = regs[op[1]]
+            regs[op[2]] = regs[op[1]]; deser.add(op[2])
         elif c == 2 and op[1] in regs:
             k, dim, kind = regs[op[1]]
             if len(op) - 2 != dim and R != [-1]:
                 fail('update_wrong_dim_accepted', 'update with a point of %d coordinates accepted by a sketch of dimension %d' % (len(op) - 2, dim), i)
             if len(op) - 2 == dim and R != [1]:
                 fail('update_refused', 'update with a point of the configured dimension refused', i)
+            if R == [1]:
+                deser.discard(op[1])
         elif c == 4 and R != [-1] and S and len(R) >= 6:
             n, ret, estmode, empty, k, dim = R[:6]
             true_n, lost, comp, _ = S
@@ -197,7 +218,7 @@ def oracle(case, irecs, mrecs):
                          'although its n was %d (is_empty() tests num_retained; a compaction had dropped all its points)' % (n, true_n, lost), i)
                 else:
                     fail('n_exact', 'n = %d but %d points were fed (updates + merged sketches)' % (n, true_n), i)
-            if F and ret > k * F[0]:
+            if F and ret > k * F[0] and op[1] not in deser:
                 fail('retained_bound', 'num_retained %d > k %d * levels %d at rest' % (ret, k, F[0]), i)
         elif c == 6 and R != [-1] and len(R) >= 2:
             ret, cnt = R[0], R[1]
@@ -209,7 +230,7 @@ def oracle(case, irecs, mrecs):
                 for w in ws:
                     if w <= 0 or (w & (w - 1)) or w >= (1 << levels):
                         fail('iteration_weight', 'iterator weight %d is not 2^level for a level below %d' % (w, levels), i); break
-                if ret > F[1] * levels:
+                if ret > F[1] * levels and op[1] not in deser:
                     fail('retained_bound', 'num_retained %d > k %d * levels %d at rest' % (ret, F[1], levels), i)
         elif c == 5 and op[1] in regs and S:
             k, dim, kind = regs[op[1]]
@@ -248,7 +269,24 @@ def oracle(case, irecs, mrecs):
                 fail('estimate_value', 'estimate %r differs from sum 2^level K(p,q) / n = %s over the retained points' % (v, Fraction(num, den)), i)
     return fails
 
-FAMILIES = [dict(name='density', harness='drv_density.cpp', extract='Extract_density.v', model='model_density', gen=gen, oracle=oracle)]
+def crash_sig(case, text):
+    """a sanitizer stop inside the kernel's inner_product while the case asks for an estimate at a point shorter than the
+       dimension of a Gaussian sketch is the out-of-bounds form of the known missing dimension check in get_estimate"""
+    dims = {}
+    short = False
+    for op in case['ops']:
+        if op[0] == 1 and len(op) >= 5 and op[2] >= 2:
+            dims[op[1]] = (op[3], op[4])
+        elif op[0] == 7 and op[1] in dims:
+            dims[op[2]] = dims[op[1]]
+        elif op[0] == 5 and op[1] in dims and dims[op[1]][1] == 2 and len(op) - 2 < dims[op[1]][0]:
+            short = True
+    if short and ('inner_product' in text or 'stl_numeric' in text or 'stl_iterator' in text):
+        return 'estimate_wrong_dim_not_refused'
+    return None
+
+FAMILIES = [dict(name='density', harness='drv_density.cpp', extract='Extract_density.v', model='model_density', gen=gen, oracle=oracle,
+                 crash_sig=crash_sig)]
 
 MANIFEST = dict(
     level_text=('Theorems (coq/Properties_C20.v, axiom-free) about an executable model of density_sketch for ANY kernel into Z, any merge tree of '
